@@ -86,7 +86,7 @@ func H_C08_header_maps() {
 	n := 1 + vChoose("n", c08Entries())
 	for i := 0; i < n; i++ {
 		nm := "e" + vItoa(i)
-		l, sl := c13GoLabel(nm, 5)
+		l, sl := c13GoLabel(nm, 6)
 		if sl.isInt && !sl.bad {
 			vAssume(vOr(sl.i > 300, sl.i < -300)) // unregistered labels: the parameter rules are C13's subject
 		}
@@ -360,7 +360,7 @@ func H_C08_key() {
 		k.ID = vBlob("kid")
 		k.Ops = []KeyOp{KeyOpVerify}
 	case 2:
-		l, sl := c13GoLabel("xl", 5)
+		l, sl := c13GoLabel("xl", 6)
 		if sl.isInt && !sl.bad {
 			vAssume(vOr(sl.i > 300, sl.i < -300))
 		}
